@@ -50,6 +50,22 @@ Fixpoint run_eager (s : state) (es : list event) : state * list (N * output) * b
   end.
 End Eager.
 
+(* the same run with every output additionally stamped with the index of the script step during
+   which it occurred (rendering only; Proofs/C12Proofs.v shows it is run_eager with more labels) *)
+Section Ix.
+Variable cfg : config.
+Definition stamp_ix (i : nat) (o : list (N * output)) : list (N * nat * output) := map (fun x => (fst x, i, snd x)) o.
+Fixpoint run_eager_ix (i : nat) (s : state) (es : list event) : state * list (N * nat * output) * bool :=
+  match es with
+  | [] => (s, [], true)
+  | e :: r =>
+      let '(s1, o1) := step cfg s e in
+      let '(s2, o2, ok2) := saturate cfg (fuel_for s1) s1 in
+      let '(s3, o3, ok3) := run_eager_ix (S i) s2 r in
+      (s3, stamp_ix i (stamp (now s) o1 ++ o2) ++ o3, ok2 && ok3)
+  end.
+End Ix.
+
 (* ---------- rendering ---------- *)
 Local Open Scope string_scope.
 
@@ -72,9 +88,10 @@ Definition show_cstate (l : cstate) : string :=
   end.
 
 (* the task log: everything the task does synchronously, in order *)
-Definition show_task_item (x : N * output) : list string :=
+Definition show_task_item (y : N * nat * output) : list string :=
+  let x := (fst (fst y), snd y) in
   match snd x with
-  | OWire tx id => ["w" ++ show_N tx ++ ":" ++ show_nat id ++ "@" ++ show_N (fst x)]
+  | OWire tx id => ["w" ++ show_N tx ++ ":" ++ show_nat id ++ "@" ++ show_N (fst x) ++ "#" ++ show_nat (snd (fst y))]
   | OWireFail tx id => ["x" ++ show_N tx ++ ":" ++ show_nat id]
   | OListen LConnected => ["lN@" ++ show_N (fst x)]
   | OListen l => [show_cstate l]
@@ -84,13 +101,14 @@ Definition show_task_item (x : N * output) : list string :=
   end.
 (* the completion log (the check sorts it by request id: future-style completions are observed
    by another task, so their order relative to the task log is not an observable) *)
-Definition show_completion (x : N * output) : list string :=
+Definition show_completion (y : N * nat * output) : list string :=
+  let x := (fst (fst y), snd y) in
   match snd x with
-  | OComplete id r => ["c" ++ show_nat id ++ ":" ++ show_result r ++ "@" ++ show_N (fst x)]
+  | OComplete id r => ["c" ++ show_nat id ++ ":" ++ show_result r ++ "@" ++ show_N (fst x) ++ "#" ++ show_nat (snd (fst y))]
   | _ => []
   end.
 
-Definition show_run (r : state * list (N * output) * bool) : string :=
+Definition show_run (r : state * list (N * nat * output) * bool) : string :=
   let '(s, o, ok) := r in
   show_list (fun x => x) " " (flat_map show_task_item o) ++ "|" ++
   show_list (fun x => x) " " (flat_map show_completion o) ++ "|" ++
@@ -104,5 +122,5 @@ Record case := {
 Definition eval_case (k : case) : string :=
   let cfg := {| cfg_cap := k_cap k; cfg_res := k_res k |} in
   let s0 := init (k_handles k) (k_max_timeouts k) (k_rmin k) (k_rmax k) in
-  let '(s, o, ok) := run_eager cfg s0 (k_script k) in
-  show_run (s, (stamp 0 init_outputs ++ o)%list, ok).
+  let '(s, o, ok) := run_eager_ix cfg 0 s0 (k_script k) in
+  show_run (s, (stamp_ix 0 (stamp 0 init_outputs) ++ o)%list, ok).
